@@ -22,15 +22,20 @@ PROPERTY = "C19"
 LEVEL = "model_checking"
 RULE = (
     "BFS over reconfiguration histories: state = advertised node list (ordered) reached by events up / down_last / "
-    "down_first / replace_first / replace_all from initial lists of 1..6 nodes; every transition builds a fresh real "
+    "down_first / replace_first / replace_all / blip_first (a node fails, is evicted by traffic, recovers) from initial "
+    "lists of 1..6 nodes of a universe in which two nodes share host name and IP and differ by port; with and without "
+    "traffic before the reconfiguration; every transition builds a fresh real "
     "client, replays the history and checks rotation, routing of a key corpus, connection attempts and open sockets; "
     "x use_vpc x delivery (whole, byte-wise) + every single cut position of the config reply at depth <= 1; "
     "distinct_nontrivial = distinct (use_vpc, delivery, history) with at least one reconfiguration"
 )
 ENDPOINT = "cluster.abcxyz.cfg.use1.cache.amazonaws.com:11211"
 EP_HOST, EP_PORT = ENDPOINT.rsplit(":", 1)
-UNIVERSE = [(f"node{i}.abcxyz.use1.cache.amazonaws.com", f"10.0.0.{i + 1}", 11211 + (i % 3)) for i in range(6)]
-EVENTS = ("up", "down_last", "down_first", "replace_first", "replace_all")
+UNIVERSE = [(f"node{i}.abcxyz.use1.cache.amazonaws.com", f"10.0.0.{i + 1}", 11211 + (i % 3)) for i in range(5)]
+# a second memcached on node0's machine: same host name and IP address, another port
+UNIVERSE.insert(1, (UNIVERSE[0][0], UNIVERSE[0][1], 11299))
+# 'blip_first': the first node fails, traffic makes the client evict it, it recovers (no reconfiguration)
+EVENTS = ("up", "down_last", "down_first", "replace_first", "replace_all", "blip_first")
 
 
 def apply_event(L, ev):
@@ -45,6 +50,8 @@ def apply_event(L, ev):
         return [unused[0]] + L[1:] if unused else None
     if ev == "replace_all":
         return unused if unused else list(reversed(L))
+    if ev == "blip_first":
+        return list(L)
     raise ValueError(ev)
 
 
@@ -53,7 +60,8 @@ def corpus(n):
 
 
 class World:
-    def __init__(self, L0, use_vpc, delivery, cut=None, version=9):
+    def __init__(self, L0, use_vpc, delivery, cut=None, version=9, traffic=True):
+        self.traffic = traffic
         self.net = stacks.new_net(None, servers=())
         self.use_vpc = use_vpc
         self.delivery = delivery
@@ -69,7 +77,8 @@ class World:
 
     def _construct(self):
         self.client = AWSElastiCacheHashClient(ENDPOINT, socket_module=self.net.module(), use_vpc=self.use_vpc,
-                                               default_noreply=False, connect_timeout=1, timeout=1)
+                                               default_noreply=False, connect_timeout=1, timeout=1,
+                                               retry_attempts=0, dead_timeout=600)
 
     def _exchange(self, fn, cut):
         net = self.net
@@ -90,7 +99,27 @@ class World:
         self.version += 1
         self.L = list(L)
         self.ep.cluster = (self.version, list(L))
+        e0 = len(self.net.events)
         self._exchange(lambda: self.client.reconfigure_nodes(), cut)
+        # connections opened by the reconfiguration itself: only to the endpoint
+        ep = ("tcp", EP_HOST, int(EP_PORT))
+        self.reconf_connects = sorted({self.net.socks[e[3]].addr for e in self.net.events[e0:]
+                                       if e[2] in ("connect", "connect_fail") and e[3] >= 0} - {ep})
+
+    def blip(self, nkeys):
+        """The first advertised node fails, traffic hits it (the client evicts it), then it recovers."""
+        net = self.net
+        fqdn, ip, port = self.L[0]
+        addr = ("tcp", ip if self.use_vpc else fqdn, port)
+        net.failing[addr] = "refused"
+        for k in corpus(nkeys):
+            net.call += 1
+            try:
+                self.client.get(k)
+            except Exception:
+                pass
+        net.failing.pop(addr, None)
+        self.exc = None
 
     def expected(self):
         return sorted(f"{ip if self.use_vpc else fqdn}:{port}" for fqdn, ip, port in self.L)
@@ -102,6 +131,10 @@ class World:
         """Checks after construction / after a reconfiguration. Returns [(clause, text)]."""
         P = []
         net, c = self.net, self.client
+        if getattr(self, "reconf_connects", None):
+            P.append(("reconfigure-connects-to-nodes", f"{what} opened connections to {self.reconf_connects} "
+                      f"(only the configuration endpoint needs to be contacted)"))
+            self.reconf_connects = []
         if self.exc is not None or c is None:
             P.append(("discovery-raises", f"{what} raised {type(self.exc).__name__}: {self.exc}"
                       + (" (the reader waited for bytes that never come)" if self.blocked else "")))
@@ -139,10 +172,13 @@ class World:
         return P
 
 
-def run_history(L0, use_vpc, delivery, hist, nkeys, cut_step=None, cut=None):
-    """Returns (final list or None, [(step, clause, text)])."""
-    w = World(L0, use_vpc, delivery, cut if cut_step == 0 else None)
-    out = [(0,) + p for p in w.judge(nkeys, f"construction over {len(L0)} node(s)")]
+def run_history(L0, use_vpc, delivery, hist, nkeys, cut_step=None, cut=None, traffic=True):
+    """Returns (final list or None, [(step, clause, text)]).  traffic=False: no key is routed until the
+    last step (clients that never opened a connection exist when a reconfiguration happens)."""
+    w = World(L0, use_vpc, delivery, cut if cut_step == 0 else None, traffic=traffic)
+    out = []
+    if traffic or not hist:
+        out = [(0,) + p for p in w.judge(nkeys, f"construction over {len(L0)} node(s)")]
     L = list(L0)
     if w.client is None:
         return L, out
@@ -151,8 +187,12 @@ def run_history(L0, use_vpc, delivery, hist, nkeys, cut_step=None, cut=None):
         if L2 is None:
             return None, out
         L = L2
+        if ev == "blip_first":
+            w.blip(nkeys)
+            continue  # judged again after the next reconfiguration
         w.reconfigure(L, cut if cut_step == i else None)
-        out += [(i,) + p for p in w.judge(nkeys, f"reconfigure_nodes() #{i} ({ev}: now {len(L)} node(s), config version {w.version})")]
+        if traffic or i == len(hist):
+            out += [(i,) + p for p in w.judge(nkeys, f"reconfigure_nodes() #{i} ({ev}: now {len(L)} node(s), config version {w.version})")]
     return L, out
 
 
@@ -174,9 +214,15 @@ def _worker(job, chk):
             hist = frontier.popleft()
             for ev in EVENTS if len(hist) < depth else ():
                 h2 = hist + (ev,)
+                if h2[-1] == "blip_first" and len(h2) >= depth:
+                    continue  # a blip is only interesting when a reconfiguration follows
                 L, probs = run_history(L0, use_vpc, delivery, h2, nkeys)
                 if L is None:
                     continue
+                if delivery == "whole" and "blip_first" not in h2:
+                    L_, p2 = run_history(L0, use_vpc, delivery, h2, nkeys, traffic=False)
+                    chk.add()
+                    _report(chk, p2, use_vpc, "whole/no-traffic-before", n0, h2, None, None)
                 transitions += 1
                 chk.add()
                 chk.outcome((use_vpc, delivery, n0, h2))
@@ -241,7 +287,8 @@ def _report(chk, probs, use_vpc, delivery, n0, hist, cut_step, cut):
         chk.violation(sig, f"AWSElastiCacheHashClient(use_vpc={use_vpc}), {n0} initial node(s), history {list(hist)}"
                       f"{'' if cut is None else f', config reply #{cut_step} cut after {cut} bytes'}"
                       f"{', byte-wise delivery' if delivery == 'byte' else ''}: {text}",
-                      {"kind": "history", "use_vpc": use_vpc, "delivery": delivery if cut is None else "whole", "n0": n0,
+                      {"kind": "history", "use_vpc": use_vpc, "delivery": (delivery if cut is None else "whole").split("/")[0],
+                       "traffic": "no-traffic" not in delivery, "n0": n0,
                        "history": list(hist), "cut_step": cut_step, "cut": cut})
 
 
@@ -266,5 +313,5 @@ def replay(detail):
         _worker(("error", detail["use_vpc"], "whole", detail["n0"], "quick"), tmp)
         return [v["what"] for v in tmp.violations.values()]
     L, probs = run_history(UNIVERSE[: detail["n0"]], detail["use_vpc"], detail["delivery"], tuple(detail["history"]), 60,
-                           detail.get("cut_step"), detail.get("cut"))
+                           detail.get("cut_step"), detail.get("cut"), traffic=detail.get("traffic", True))
     return [t for _, _, t in probs]
